@@ -263,9 +263,15 @@ def structure(ctx):
         # region of open finding C15.cross_container_node: a relation inside a bundle refers to an element declared
         # only at top level; the shared node is then placed inside the bundle's cluster by Graphviz
         ctx.finding("C15.cross_container_node", e2 == "ex:a9")
+        if P["bundle"] == 2:
+            ctx.finding("C15.cross_container_node", e2 == "ex:e8")  # the same situation through the bundle's second reference
         b = d.bundle("ex:bundle1")
         b.entity("ex:e1", {"prov:label": lab})
         b.wasGeneratedBy("ex:e1", "ex:a9")
+        if P["bundle"] == 2:
+            # annotated and n-ary relations inside the bundle as well (each needs a blank node of its own)
+            b.used("ex:a9", "ex:e1", None, other_attributes={"ex:k": 2})
+            b.wasDerivedFrom("ex:e1", "ex:e8", "ex:a9")
     if P.get("directions"):
         show_el = show_rel = show_nary = True   # the direction shard varies direction x use_labels only
     else:
@@ -343,6 +349,11 @@ def structure(ctx):
                     if e2_["tail"] == h["_gvid"] and idx[e2_["head"]].get("URL") == b_url and "style" not in e2_:
                         found += 1
         ctx.check(found >= 1, "relation %s -> %s is not drawn as an edge path with these ends" % (a_url, b_url))
+    # a blank (point) node belongs to ONE relation: exactly one edge leads into it
+    for o in objects:
+        if o.get("shape") == "point":
+            indeg = len([e for e in edges if e["head"] == o["_gvid"] and not idx[e["tail"]]["name"].startswith("ann")])
+            ctx.check(indeg == 1, "a blank node is shared by %d relations (node names are global in DOT, also across clusters)" % indeg)
     ann = [o for o in objects if o["name"].startswith("ann")]
     want_ann = 0
     for rec_ in all_recs:
@@ -372,6 +383,8 @@ def _structure_shards(tier):
     out = [{"rels": s} for s in sets]
     out.append({"rels": [0, 1], "bundle": True})
     out.append({"rels": [2], "bundle": True})
+    out.append({"rels": [1], "bundle": 2})
+    out.append({"rels": [2], "bundle": 2})
     out.append({"rels": [0, 2], "directions": True})
     return out
 
